@@ -415,7 +415,7 @@ theorem scope_iterator_prefixes (u : Bytes) (hu : u.length = 16) :
 part is that scope's uuid (so `RemoveScope`'s prefix walk visits exactly the scope's records) -/
 theorem under_scope_prefix_iff (p : Parts) (h : p.WF) (u : Bytes) (hu : u.length = 16) :
     (p.kind.byte :: u).isPrefixOf p.toBytes = true ↔ p.primary = u := by
-  simp only [Parts.toBytes, List.isPrefixOf_cons₂, beq_self_eq_true, Bool.true_and]
+  simp only [Parts.toBytes, List.isPrefixOf_cons_cons, beq_self_eq_true, Bool.true_and]
   rw [List.isPrefixOf_iff_prefix]
   have h16 := h.1
   constructor
@@ -449,7 +449,7 @@ theorem index_key_prefix_iff (ix : Index) (hix : ix.lenPrefixed = true) (a a' id
   refine ⟨ix.byte :: UInt8.ofNat a.length :: a, ix.byte :: UInt8.ofNat a'.length :: (a' ++ id), ?_, ?_, ?_, ?_⟩
   · simp [iterPrefix, hix, hla]
   · simp [indexKey, iterPrefix, hix, hla']
-  · simp only [List.isPrefixOf_cons₂, beq_self_eq_true, Bool.true_and, Bool.and_eq_true, beq_iff_eq]
+  · simp only [List.isPrefixOf_cons_cons, beq_self_eq_true, Bool.true_and, Bool.and_eq_true, beq_iff_eq]
     rw [List.isPrefixOf_iff_prefix]
     constructor
     · rintro ⟨hlen, hp⟩
@@ -461,6 +461,25 @@ theorem index_key_prefix_iff (ix : Index) (hix : ix.lenPrefixed = true) (a a' id
       exact (List.IsPrefix.eq_of_length this hn).symm
     · rintro rfl
       exact ⟨rfl, List.prefix_append _ _⟩
+  · rintro rfl
+    simp
+
+/-- For the two indexes keyed by a specification id (scope spec → scope, contract spec → scope
+spec; no length prefix): the key of `(s', id)` lies under the iterator prefix of `s` iff `s' = s`,
+for first components of equal length (specification ids are always 17 bytes). -/
+theorem index_key_prefix_iff_fixed (ix : Index) (hix : ix.lenPrefixed = false) (s s' id : Bytes)
+    (hlen : s.length = s'.length) :
+    ∃ p k, iterPrefix ix s = some p ∧ indexKey ix s' id = some k ∧
+      (p.isPrefixOf k = true ↔ s' = s) ∧ (s' = s → k.drop p.length = id) := by
+  refine ⟨ix.byte :: s, ix.byte :: (s' ++ id), by simp [iterPrefix, hix], by simp [indexKey, iterPrefix, hix], ?_, ?_⟩
+  · simp only [List.isPrefixOf_cons_cons, beq_self_eq_true, Bool.true_and]
+    rw [List.isPrefixOf_iff_prefix]
+    constructor
+    · intro hp
+      have := List.prefix_of_prefix_length_le hp (List.prefix_append s' id) (by omega)
+      exact (List.IsPrefix.eq_of_length this hlen).symm
+    · rintro rfl
+      exact List.prefix_append _ _
   · rintro rfl
     simp
 
